@@ -211,7 +211,7 @@ package proto
 //@ valid (r *Reader): r != nil ==> r.data != nil && r.b != nil
 
 //@ -- rdOK: the stream effects of reading exactly n bytes, or failing
-//@ spec func rdOK(r Val, err Val, n Int) Bool = (err == nil ==> r.pos == old(r.pos) + n && r.failed == old(r.failed)) && (err != nil ==> r.failed) && (old(r.pos) + n > r.end ==> err != nil) && old(r.pos) <= r.pos && r.pos <= r.end
+//@ spec func rdOK(r Val, err Val, n Int) Bool = (err == nil ==> r.pos == old(r.pos) + n && r.failed == old(r.failed)) && (err != nil ==> r.failed) && (old(r.pos) + n > r.end ==> err != nil) && old(r.pos) <= r.pos && r.pos <= r.end && (n == 0 ==> err == nil)
 //@ -- rdAny: the stream effects of reading some bytes, or failing
 //@ spec func rdAny(r Val, err Val) Bool = (err == nil ==> r.failed == old(r.failed)) && (err != nil ==> r.failed) && old(r.pos) <= r.pos && r.pos <= r.end
 
@@ -332,3 +332,35 @@ package proto
 //@   modifies r.pos, r.failed, r.b.Buf
 //@   ensures strOK(r, err)
 //@   ensures err == nil ==> len(s) == strN(r) && forall k in 0..len(s) :: s[k] == r.in[strAt(r) + k]
+
+// ---------------------------------------------------------------------------
+// little-endian helpers for 128/256-bit values and IPv6 (pure readers have no frame)
+
+//@ contract binUInt128(b) (r) props(C01,C15,C17)
+//@   requires len(b) >= 16
+//@   ensures r.Low == unle64(b[0], b[1], b[2], b[3], b[4], b[5], b[6], b[7]) && r.High == unle64(b[8], b[9], b[10], b[11], b[12], b[13], b[14], b[15])
+//@ contract binPutUInt128(b, v) props(C01,C15,C17)
+//@   requires len(b) >= 16
+//@   modifies contents(b)
+//@   ensures b[0] == byte64(v.Low, 0) && b[1] == byte64(v.Low, 1) && b[2] == byte64(v.Low, 2) && b[3] == byte64(v.Low, 3) && b[4] == byte64(v.Low, 4) && b[5] == byte64(v.Low, 5) && b[6] == byte64(v.Low, 6) && b[7] == byte64(v.Low, 7)
+//@   ensures b[8] == byte64(v.High, 0) && b[9] == byte64(v.High, 1) && b[10] == byte64(v.High, 2) && b[11] == byte64(v.High, 3) && b[12] == byte64(v.High, 4) && b[13] == byte64(v.High, 5) && b[14] == byte64(v.High, 6) && b[15] == byte64(v.High, 7)
+//@   ensures forall k in 16..len(b) :: b[k] == old(b[k])
+//@ contract binUInt256(b) (r) props(C01,C15)
+//@   requires len(b) >= 32
+//@   ensures r.Low.Low == unle64(b[0], b[1], b[2], b[3], b[4], b[5], b[6], b[7]) && r.Low.High == unle64(b[8], b[9], b[10], b[11], b[12], b[13], b[14], b[15])
+//@   ensures r.High.Low == unle64(b[16], b[17], b[18], b[19], b[20], b[21], b[22], b[23]) && r.High.High == unle64(b[24], b[25], b[26], b[27], b[28], b[29], b[30], b[31])
+//@ contract binPutUInt256(b, v) props(C01,C15)
+//@   requires len(b) >= 32
+//@   modifies contents(b)
+//@   ensures b[0] == byte64(v.Low.Low, 0) && b[1] == byte64(v.Low.Low, 1) && b[2] == byte64(v.Low.Low, 2) && b[3] == byte64(v.Low.Low, 3) && b[4] == byte64(v.Low.Low, 4) && b[5] == byte64(v.Low.Low, 5) && b[6] == byte64(v.Low.Low, 6) && b[7] == byte64(v.Low.Low, 7)
+//@   ensures b[8] == byte64(v.Low.High, 0) && b[9] == byte64(v.Low.High, 1) && b[10] == byte64(v.Low.High, 2) && b[11] == byte64(v.Low.High, 3) && b[12] == byte64(v.Low.High, 4) && b[13] == byte64(v.Low.High, 5) && b[14] == byte64(v.Low.High, 6) && b[15] == byte64(v.Low.High, 7)
+//@   ensures b[16] == byte64(v.High.Low, 0) && b[17] == byte64(v.High.Low, 1) && b[18] == byte64(v.High.Low, 2) && b[19] == byte64(v.High.Low, 3) && b[20] == byte64(v.High.Low, 4) && b[21] == byte64(v.High.Low, 5) && b[22] == byte64(v.High.Low, 6) && b[23] == byte64(v.High.Low, 7)
+//@   ensures b[24] == byte64(v.High.High, 0) && b[25] == byte64(v.High.High, 1) && b[26] == byte64(v.High.High, 2) && b[27] == byte64(v.High.High, 3) && b[28] == byte64(v.High.High, 4) && b[29] == byte64(v.High.High, 5) && b[30] == byte64(v.High.High, 6) && b[31] == byte64(v.High.High, 7)
+//@   ensures forall k in 32..len(b) :: b[k] == old(b[k])
+//@ contract binIPv6(b) (r) props(C01,C15)
+//@   requires len(b) >= 16
+//@   ensures forall j in 0..16 :: r[j] == b[j]
+//@ contract binPutIPv6(b, v) props(C01,C15)
+//@   modifies contents(b)
+//@   ensures forall j in 0..min(16, len(b)) :: b[j] == v[j]
+//@   ensures forall k in 16..len(b) :: b[k] == old(b[k])
